@@ -34,6 +34,7 @@ Plan gen_c17(uint64_t seed, int tier)
   int phases = static_cast<int>(r.range(2, tier ? 6 : 4));
   int64_t barrier = 1;
   int64_t next_name = 10;
+  int cur_thread = 0;
   auto log_through = [&](std::vector<Op>& ops, std::vector<int> const& allowed, int n)
   {
     if (allowed.empty())
@@ -49,9 +50,14 @@ Plan gen_c17(uint64_t seed, int tier)
         ops.push_back(Op{OP_LOG, lg, static_cast<int64_t>(r.below(4)), r.range(2, 8), static_cast<int64_t>(r.next() >> 8),
                          static_cast<int64_t>(r.below(60)), 0});
       }
-      else if (c < 87)
+      else if (c < 84)
       {
         ops.push_back(Op{OP_GET_LOGGER, lg});
+      }
+      else if (c < 87)
+      {
+        // a CsvWriter scope; the name is private to the issuing thread, cycles reuse it
+        ops.push_back(Op{OP_CSV, static_cast<int64_t>(cur_thread), r.range(0, 6)});
       }
       else if (c < 93)
       {
@@ -89,6 +95,7 @@ Plan gen_c17(uint64_t seed, int tier)
     for (int t = 0; t < nthreads; ++t)
     {
       auto& ops = p.threads[static_cast<size_t>(t)];
+      cur_thread = t;
       ops.push_back(Op{OP_BARRIER, barrier, nthreads});
       log_through(ops, allowed, static_cast<int>(r.range(1, tier ? 25 : 12)));
       if (r.chance(1, 4))
@@ -171,6 +178,7 @@ Plan gen_c17(uint64_t seed, int tier)
     {
       if (t != d)
       {
+        cur_thread = t;
         log_through(p.threads[static_cast<size_t>(t)], untouched, static_cast<int>(r.range(0, 8)));
       }
     }
@@ -219,7 +227,7 @@ Verdict judge_c17(Plan const& p, History const& h, RunInfoLite const& ri)
     return d;
   }
   int nsinks = static_cast<int>(p.get("nsinks", 1));
-  uint64_t sink_lookups = 0;
+  uint64_t sink_lookups = 0, csv_scopes = 0;
   uint64_t removals = 0, blocking = 0, recreated = 0, lookups = 0, sinks_destroyed = 0, sinks_kept = 0;
   // per slot: current mask (0 = removed)
   std::map<int, int64_t> cur_mask;
@@ -273,6 +281,15 @@ Verdict judge_c17(Plan const& p, History const& h, RunInfoLite const& ri)
       {
         return violation("sink_lookup_not_idempotent", "looking up sink " + std::to_string(e.a) + " by name " +
                                                          (e.b ? "returned a different object than the one in use" : "found nothing although it is in use"));
+      }
+      break;
+    case EV_CSV:
+      ++csv_scopes;
+      if (e.s != e.s2)
+      {
+        return violation("csv_file_differs_after_the_writer_was_destroyed",
+                         "CsvWriter scope " + std::to_string(e.a) + " with " + std::to_string(e.b) + " rows: file holds " +
+                           std::to_string(e.s2.size()) + " bytes, expected " + std::to_string(e.s.size()) + " (header + every row)");
       }
       break;
     case EV_NOTE:
@@ -335,6 +352,7 @@ Verdict judge_c17(Plan const& p, History const& h, RunInfoLite const& ri)
   v.probes["recreations_after_removal"] = recreated;
   v.probes["lookups_and_idempotent_creates"] = lookups;
   v.probes["sink_lookups_by_name"] = sink_lookups;
+  v.probes["csv_writer_scopes"] = csv_scopes;
   v.probes["sinks_destroyed"] = sinks_destroyed;
   v.probes["sinks_kept"] = sinks_kept;
   return v;
